@@ -92,7 +92,7 @@ CLAIMS = {
         text='Proof for the lexer (every member function): every loop terminates (decreases clause on bytes left), every source access is in bounds, every cursor move is '
              'forward, and tokenize ends either with exactly one Lexical diagnostic or with a token vector ending in Eof after consuming the whole source - for any byte string up to 1 MiB. '
              'No raw C++ exception (string_view::substr out_of_range) can surface.',
-        note=TB + 'Beyond the lexer only isolated pieces are under contract: the inheritance-cycle walk of buildClassRegistry (unit CYC: terminates for every class table - decreases clause over the set of marked names - and answers a cycle with one Semantic error) and the "only Semantic errors at the node" clauses of the analyser rule sites (unit SEMK). The recursive-descent parser, the module loader (observed: @shots(99999999999) surfaces raw `stoi`) and the rest of the analyser are NOT under contract; '
+        note=TB + 'Beyond the lexer only isolated pieces are under contract: the inheritance-cycle walk of buildClassRegistry (unit CYC: terminates for every class table - decreases clause over the set of marked names - and answers a cycle with one Semantic error) and the "only Semantic errors at the node" clauses of the analyser rule sites (unit SEMK). and the main / @shots extraction tail of ModuleLoader::load (unit LDSH: only Semantic errors whatever the annotation text - std::stoi modelled as possibly failing beyond 9 digits -, two mains rejected, the annotation value carried into the program). The recursive-descent parser, the rest of the module loader and of the analyser are NOT under contract; '
              'the keyword-table lookup is a trusted library model.',
         ref='DESIGN.md §4 C13'),
     'C14': dict(
